@@ -205,7 +205,7 @@ func runC11(c *Ctx) {
 		c.verdict(c.deferredBefore(fwd, atEntry(fwd), callTo(done)) || len(find(fwd, func(in ssa.Instruction) bool {
 			_, isD := in.(*ssa.Defer)
 			return isD && callTo(done)(in)
-		})) == 1, c.nm(fwd)+" | defer sub.wg.Done()", c.P.Pos(fwd.Pos()), "Done deferred", "the forwarder no longer signals its WaitGroup on exit (cancel would hang)")
+		})) == 1 || c.mustFollowOptQuietAll(fwd, callTo(done)), c.nm(fwd)+" | defer sub.wg.Done()", c.P.Pos(fwd.Pos()), "Done deferred", "the forwarder no longer signals its WaitGroup on exit (cancel would hang)")
 		c.fanOutAll()
 	})
 }
